@@ -7,6 +7,12 @@
 //!        -> `ok <tx_root hex> <serialize_hashable hex> <id hex>` | `err` (block hex does not deserialize)
 //!      `exec` uses the block hex only; the other tokens are computed by the generator from the same block
 //!      (serialize(&block.header), block.miner_tx.hash(), block.tx_hashes) and are the inputs of the Lean side.
+//!
+//! Direct oracles added after the audit of C06 (no Lean side): Monero's own tree-hash vectors and an accepted PoW blob
+//! (known answers), block 202612 EMBEDDED in the harness (`c06_block202612.hex`; the run fails if the substitution branch was
+//! not reached), the header bytes against the by-the-book layout of the header's field VALUES, leaf counts strictly between the
+//! powers of two, blocks at the 2-/3-byte boundaries of the count varint, call sequences on one `Block` value (id first,
+//! public fields changed between calls), version-1 miner transactions, and a local purity re-check of the long lines.
 use crate::common::*;
 use monero::blockdata::transaction::{RawExtraField, TxOutTarget};
 use monero::consensus::encode::{deserialize, serialize};
@@ -77,6 +83,95 @@ fn leb(mut n: u64) -> Vec<u8> {
 }
 const ID_202612_FORMULA: &str = "426d16cff04c71f8b16340b722dc4010a2dd3831c22041431f772547ba6e331a";
 const ID_202612_NETWORK: &str = "bbd604d2ba11ba27935e006ed39c9bfdd99b76bf4a50654bc1e1e61217962698";
+/// block 202612 of the Monero main chain (16 672 bytes, version-1 miner transaction, 513 listed hashes), the only input that
+/// reaches the substitution branch of `Block::id`. Embedded so that the family does not depend on where the library keeps its tests.
+const BLOCK_202612: &str = include_str!("c06_block202612.hex");
+/// Monero's own tree-hash vectors (tests/hash/tests-tree.txt of the reference implementation, 1..=16 leaves; the same
+/// triples are quoted by the test `compute_tree_hash` of src/cryptonote/hash.rs): (expected root, concatenated leaves)
+const TREE_KAT: [(&str, &str); 16] = [
+    ("676567f8b1b470207c20d8efbaacfa64b2753301b46139562111636f36304bb8", "676567f8b1b470207c20d8efbaacfa64b2753301b46139562111636f36304bb8"),
+    ("5077570fed2363a14fa978218185b914059e23517faf366f08a87cf3c47fd58e", "3124758667bc8e76e25403eee75a1044175d58fcd3b984e0745d0ab18f473984975ce54240407d80eedba2b395bcad5be99b5c920abc2423865e3066edd4847a"),
+    ("f8e26aaa7c36523cea4c5202f2df159c62bf70d10670c96aed516dbfd5cb5227", "decc1e0aa505d7d5fbe8ed823d7f5da55307c4cc7008e306da82dbce492a0576dbcf0c26646d36b36a92408941f5f2539f7715bcb1e2b1309cedb86ae4211554f56f5e6b2fce16536e44c851d473d1f994793873996ba448dd59b3b4b922b183"),
+    ("45f6e06fc0263e667caddd8fba84c9fb723a961a01a5b115f7cab7fe8f2c7e44", "53edbbf98d3fa50a85fd2d46c42502aafad3fea30bc25ba4f16ec8bf4a475c4d87da8ad3e5c90aae0b10a559a77a0985608eaa3cc3dd338239be52572c3bdf4ba403d27466991997b3cf4e8d238d002a1451ccc9c4790269d0f0085d9382d60fef37717f59726e4cc8787d5d2d75238ba9adb9627a8f4aeeec8d80465ed3f5fb"),
+    ("e678fb87749ec082a9f92537716de8e19d8bd5bc4c4d832bd3fcfd42498dac83", "051a082e670c688e6a0fc2c8fd5b66b7a23cd380c7c49bd0cfffb0e80fb8c2334bb717c5e90db0ac353dfc0750c8b43a07edae0be99d6e820acc6da9f113123ae084c38ccdbf9c6730e228b5d98e7beb9843cfb523747cc32f09f2b16def67f76765cee044883827b9af31c179d3135b16c30f04453943d9676a59b907a6439658f6c98159b8fa1b152f1bcf748740754ca31c918501dbd577faf602c641df59"),
+    ("7db3258ea536fef652eaaa9ccb158045770900b3c301d727bcb7e60f9831ae2c", "4231b54cddc617d06e0e311536fa400e5be0a35aab5fec9ec8d98f6c6dad3916fe6cdb1f63be231f95cdc83bb15b0d99d32d9922331b738c423625471fad7f408e60c0773fe78938b054e28b86ac06a194d141c1bde5f3c6f2b11468b43702cb3121b40ccbcb5461fa9321c35c9342e21efd7c1c22f523d78b9d4de28112b6cc51552642ffc126c66f25038f9d3b0cf485cc252215c144d51a139c8ea9a0ecc16e81d8d92dd3660d885deca60070d3d00069d89db1a85acb9c1f18d0c90736a7"),
+    ("ad56b3e027d78a372adebe839e154668aec5236f7d40296cfdb562fca1dc73c2", "68e09573a758b75ea8e7d925fe81e3155afecddc4c8aeb3fe70d87411ee53aceac63c0233d172cd49b2708350fd64e2cf4dccb13352e3a159c06647c609429349197163eca2c2dae0c8643fdfe5d346b2ffd45a2d46f38599efbfa587c3ac0c3119e19508e009556fe53e4f78ef30eed649cdc1e090c8cb662eae1863fdc683bbabea966764f550a142dd68e5b8eb1930ff0c7333c9f2555712489a8cf6a5d188a70841510fca540b8c0425123efca47d5a698cf392e3bdbb7226053459fae01fd19ddb9d16d5f5499525feb49ffca9411e7ac48de15256559f3f65f899b80af"),
+    ("090a95612ed9df6eeb854ae320355889a302498b4f5164a79d8e384a3a0d9748", "42e7f4058ca80d513c140837dd661acde3fb914779079baccfe188cbce275aed4b515094bb49ab9a825bcc2ac13f84b14a9defeb1b62fc68124b088272a3562696d62ccdfb5d896b2d2b410a2a79f9b1e7849feebc17617ba12a08d4e80affe970ff2fb79917ac13708f79be215bb6484d298b2fe22b4818536e74894db5e0350e1505ca2681da7b7d7171e3d10c89348cab160ff5b2e739d3591443d2af60db5eb36c50a2dfdb79b8ab83b0792161ac4756d9b831f1863188e10c81af5077d0fdb123f66e51670f03a203ff2287dea6827dcd5afd4904736ec4fe9f3b52f7e2bed7beaa1543bd8bfbfff6a8ae8bf1791dc34efa92c6342532fa33a3b72b6c9f"),
+    ("997ac1178ab7414bab823fbca45b5630df8d1d8263063e6c57da463b85d68a74", "947fbbc55ad237fc5dbd7d52dddd44bf3f2a09005c78873422f7ef282d8e6fcc554e35c9566febf91cbbcb1d57a7ebd119abb0ad33a006d01623b7b379e966e00be000ae2fe8a45940e99c953d22014bae4932d8493ad4a551a97d437db2939dd53abedc11a63417f76257a5587f382a57d46d63c372182600c7920bcaf74e9e65289e8c45123ac8a54a45a6104dce5b8c065065ff3a3b6f8bf4d86bf96cb56116df4e01eb3153223d5f3a8c0d7de9eb348158e5ca0c363568674215f68b6ff8e54aeb4a2661f1144cb4f1bde7f9e6371d8a5568d4b3ff3382c65e143ae5d3a5834c890559be95b8b80b82c83d70df85c934bf9dd4b0f2b5f60b8553bd1c1e537b7a1f78a89a17a335a06f5d7143dfecff0c10a2e0a524c91ce913ae04501b65"),
+    ("d7647e967e4f1ad3d5a0b2d231f62c4fe8fea85b845a72aaf57aeea96f2388f2", "5b0bf1b5c843cc5ea8e907c0d6ea901f1d4259cd61e68895fa1a9df76973ac6c87ee22343802565be146e4fcd768cde3cdd1b1996b8626e53b62648a9fd7f5aee2ce5b4aacb090d1beeaf42d47e7f0e90174af6554e8bd4aea3df45e90537eb7572b9583b3fcedf56ff69c412c4576a1353458292b7a6b10536887da47fb95c999ff1a074dfb52db43cf423e81e02aacb267b5f3b48761de9c3a73efe199d710e09043e4701792d04112d18e33d5f78efe4fbda461b4e0f2f55f07ca04eed04762d956b396ff0471c28f48462bf9b6b47caac50be8dd822198a39366071b18f4d4e8188bd11421b606108e9bbcfb1377e122c36083beca6a2306e48bfdbc64c9e6435ed838eba78e0af101abf79ff9600f6cc1b2b776783491161ae2d1d8df2d436a20c053c9237a7d224016878906352eba550d778e91ba830906b8d0be4e6e"),
+    ("bc4b8c89368a254ccd0fb8ad2e9bcf95e06e1189b9a87774a3f70c51809967ef", "0bea27a480254ca07321850f25294478628ce83a025af4624902644f9dec23e8fb2c2313332449ae662e59b0bf99c30263a573f152cdcfd731402fe4bc10a758fbc005a236a1fb4c06f25c0564726bace64ae59c9051fc4e6171b5fb1466623f5c6a33ed05f196a6eb43852aa0735f1004245a58f68d3f8848ee916dcdfea2d7c63159daff81f0a9d10261d416ba290752f8333afbb7e22ca1b9c7f55b9023386b759fa69caa43c5caa7c339a0ddcfd95d9c12bea4c2cb450838080b54e270c4aa6580cdbb3431acb13dad236d1999d8b1ec1ed78f3e14061a890c6720947d18ee2dfa62ae4ad5e5ad6d8234ce99a1b2a21ba096325d8acf951380eacac551423d108b090ede16d479483ca0f9acc6cf1db8b8e4597b1c64738675f13665f84043ace791a58acf22d31e6298e7687c24276252f10396c203d38a79b232b200d1c53abb01b9678296797b9e08e4bf0251d8acfe3f42127db1295e3c90241a594d"),
+    ("d765c015e0d30f911278d3b011faba39e8707962d90dabafb37081805dfbe121", "dbbd17543ddcc85cd6e3d96d08ae74f1eb5bb69b5d04ed538622423e0f78add6152cf461b569d733167cf18c94c5c09061aced2c59cbd75529c3e5d857528d6be15dab61315fa2e18ad41fc7e7c99cd274e1f7e4e6005e48015118153fd78b190a4960c135213f187da7675369611ad66b546cb5b041ab1743deae82edad9c4e62dabbff022a54c1f1cbd65614fad0d33f894ace380426618330339f238e703e40df8ef6a73ec8de5e35a2c41904552be0d029cfafe3629662dafd39069d25a1982e021ca076aff80f75ccc92ce29219ea273874a29a9c5357dc630a244a0025a7bccd0b6489f38b9603027a032b048cdaa5c88bafb1e72f4a69e0040c0c7b4532b1a91e7b92ed2cd5533b8a4f119ab15c76943204ecbe61b15dd2610c49ed38b771e6ba16c7beb09c70c0550afac81f3580d12491c4470c4773424796a857539616f29cd2df4e187363d24c22bb6cc91530705d7057b9a4380767d9fd8be0963ba503132cac79c870fa4c42fc32ee39a7a3c2ded84cd4b6e302d132f3d8e2ea"),
+    ("3828d41d973d48f171a901cd67f99d073cfbc4dc954fe9c58a48f31a2b0c8927", "ac68da2f276c44fcddf6018bfad995e66a50ef120dbcd734834f2473542179f0754c132933fffa46b3c61b01231b5a30cdca82b16afdb5f5183a4f733345dade7ddb2a26b4adf0c23520a8e2d7bf979a7aeca3022153da6a65091172c34ec3a2b8bd5bc6e2dd971cf9b6582b0cdc24f84c48ee23a47c078ecfe306a3791eabe93fc38d28e6a82bb3f80448b7fa3b3f687e59447e6b41074217cf336e4ba50b580f8724b18f95908a13517f5215b67b1b9d0f7129c4e91efa23df763142be2e28f4d394cd6493ea6185aefa0ce8d73b5c0c11f5e8ada75a7c29438ce162749deb113cba0d436005742d35e7397d4fec8419b24320a21dcb18089e5c7644abe3d57b2554c19c0eb55ebfe943ac13beafcd9bad66a967fcc1e747c778bf452c6ccfc9b96772caf052bd768d50977cda7255f479510af8628d5e24125b9482b0e786a65e99bdfb73e6c6e57f01458a7735d0e16b30546d1856683002aa1d0980b54afc8086b75eff6b7a0b448e31e2bf741b24e7399dded0321f745ef034d4c80fc15719b81a797b751c27110480e48c7e98e27aa9397b7c58917147200fd4770d55"),
+    ("834e5f13dd06f541753f60fe2b5854eff15e54c4141cc0836c4688769a0db0a4", "ec58450fe3887a480b39cc493599bf4107d276f57453257bbd1446ccec960ce8aad0e7623c1ac4fe07c2255376dd1aaf4b78a079e8f701a74560805d295d466a6987e81e2ed74b4ccc6a0f121eb6f173f4efeb74f801e1b80e1ee97bf4216376c00a92962c5234d276bea8975e49718c546c3027d57131333a4e4c5756899ba7c9643ff8335553325d4706cd72930b09d632c561072b39b49106c2d424fa6773bbb0bb01fed84effb8ed7471b14581213e49b8fd8dacd1c3f9c50f2a915bfcd77d07abb95cd0aa13df084adc54a04e3214c639cef5cc22fd0a1477a1a196a919d37dff128318900dce936b5cf3a3154fb05f9b2841481554805b681c2943eeade2b21fcc72c6380dc70d4f404dcfe0c0686f94f979989e663f4028189ae5839f0ff8d2c58b4ea09797ece5f5554fccb824c24293b7b7bf8af4da3536548ee5ebbf80c8ea56f88bfa8174df124f5acdecb9e919041ec664e384a8eaeb8e20be270350a2f1cb65f691c0cb1392226a928a3a3aac3f69fe5eab76d125fdeb5ea4c4b2dd59993e7df68221c0da90a1ee89885b217bb6b67ab2d64feb33b66b31087795ddeeb52d40c9a260da14b383caad730ddc8f1e6b59baf7bf110a452a05e8bb"),
+    ("bca11932a196feb98e7779662b8c0f3754a6438311209a858bb891de6bf09581", "23c2a65a1917cb82949e89ca65585f4d0b09a5d90a912aed4d8aff9af2a2ce6594305a47ad8e6b744a5fd79cb27e5f4a3b28a3893c655efe3f61105c85183c822d293c74b60d4cc0c7ee002616a97411a3b1d3d8c1be1079a1b300e8e17c95568defd202af2d290cbf1e678e881430d05419c2c543b8e476b424232bc7396e14928e459597e6a8cf9cc6c95051b16d0bcc0e4034ffbcd4ee321b9e94bbc0a1729ee8ab4cd43158c4e8e571ee64c2102f181402238cd53a57693dbfdd5e6be3bf23103e73c40248ce7afb8dad6dd2c2107aab20569f740197d64efbe6159a553c013c04c5c54aa9a4dbe41f2910554bba612e16fe3c682d493c7a1b35c0b3476337badb053bae123c6306442812f5f2df8995c29d7e9c218d4d9e86699cca19d06be9688bf8150d487ede28911089ea86d0be0986b51adc270317c438b622748321d2d9c9f93400b73d7fdbe3e1f6ff36f16be9416b568a80e2764a258b6789d570d80bf91e832baa1ab92289759eb2504ab4b0d3b826e944f5f4beb5d6a3764dd9225a0a1e78a7d0485ffc6808651ef1a26bda9c7e436ab48587e91cfdab4a7c1dbb13a78025ac77baa1e389f9b82994c6cb725c30708a266b5e1a9d0b52128ba340a4a609095e70cc7b30cf6d3a2156b4a35c1bba574f240c37f94718616e48"),
+    ("2d0ad2566627b50cd45125e89e963433b212b368cd2d91662c44813ba9ec90c2", "21f750d5d938dd4ed1fa4daa4d260beb5b73509de9a9b145624d3f1afb671461b07d768cf1f5f8266b89ecdc150a2ad55ccd76d4c12d3a380b21862809a85af623269a23ee1b4694b26aa317b5cd4f259925f6b3288a8f60fb871b1ad3ac00cb1e6c55eddfc438e1f3e7b638ea6026cc01495010bafdfd789c47dff282c1af4c6a8f83e5f2fca6940a756ef4faa15c7137082a7c31dffe0b2f5112d126ad4af1d536c0e626cc9d2fe1b72256f5285728558f22a3dbb36e0918bcfc01d4ae7284d0bfb8e90647cdb01c292a53a31ff3fe6f350882f1dae2b09374db45f4d54c67d3b4e0829c4f9f63ad235d8ef838d8fb39546d90d99bbd831aff55dbbb642e2bf529ceccd0479b9f194475c2a15143f0edac762e9bbce810436e765550c69e234c22276c41d7d7e28c10afc5e144a9ce32aa9c0f28bb4fcf171af7d7404fa5e28b79dc97bd4147f4df6d38b935bd83fb634414bae9d64a32ab45384fba5b8da5c147d51cd2a8f7f2a9c07b1bddc5b28b74bf0c0f0632ac2fc43d0d306dd1ac1481cabe60a358d6043d4733202d489664a929d6bf76a39828954846beb47a3baacb35d2065cbe3ad34cf78bf895f6323a6d76fc1256306f58e4baecabd7a779388c6bf2734897c193d39c343fce49a456f0ef84cf963593c5401a14621cc6ec1bef01b53735ccb02bc96c5fd454105053e3b016174437ed83b25d2a79a88268f2"),
+];
+/// a main-chain block (major version 12, only the miner transaction) and its block-hashing blob as accepted by monerod
+/// (quoted by the test `test_block_ser` of src/blockdata/block.rs)
+const KAT_BLOCK: &str = "0c0c94debaf805beb3489c722a285c092a32e7c6893abfc7d069699c8326fc3445a749c5276b6200000000029b892201ffdf882201b699d4c8b1ec020223df524af2a2ef5f870adb6e1ceb03a475c39f8b9ef76aa50b46ddd2a18349402b012839bfa19b7524ec7488917714c216ca254b38ed0424ca65ae828a7c006aeaf10208f5316a7f6b99cca60000";
+const KAT_BLOB: &str = "0c0c94debaf805beb3489c722a285c092a32e7c6893abfc7d069699c8326fc3445a749c5276b6200000000602d0d4710e2c2d38da0cce097accdf5dc18b1d34323880c1aae90ab8f6be6e201";
+
+/// by-the-book header layout from the header's field VALUES: varint(major) ‖ varint(minor) ‖ varint(timestamp) ‖ prev_id ‖ nonce (u32 LE)
+fn header_ref(h: &BlockHeader) -> Vec<u8> {
+    let mut v = leb(h.major_version.0);
+    v.extend(leb(h.minor_version.0));
+    v.extend(leb(h.timestamp.0));
+    v.extend_from_slice(h.prev_id.as_bytes());
+    v.extend_from_slice(&[h.nonce as u8, (h.nonce >> 8) as u8, (h.nonce >> 16) as u8, (h.nonce >> 24) as u8]);
+    v
+}
+/// `ok <root> <blob> <id>` of a block value by the independent formulas (tree_ref, by-the-book header, leb, tiny_keccak);
+/// the second component says whether the block-202612 substitution applied
+fn formulas(blk: &Block) -> (String, bool) { formulas_with(blk, blk.miner_tx.hash().to_bytes()) }
+/// transaction identifier WITHOUT `Transaction::hash`: v1 = H(whole serialisation); v2 = H(H(prefix) [‖ H(base) ‖ third]) where the part in
+/// brackets is present iff the transaction has a RingCT base, and third = 0^32 for type Null, H(bytes after the base) when the prunable part is
+/// present, the fixed constant otherwise
+fn tx_id_ref(t: &Transaction) -> [u8; 32] {
+    let all = serialize(t);
+    if t.prefix.version.0 == 1 { return kec(&[&all]); }
+    let pre = serialize(&t.prefix);
+    let mut parts: Vec<u8> = kec(&[&pre]).to_vec();
+    if let Some(base) = &t.rct_signatures.sig {
+        let bb = serialize(base);
+        parts.extend_from_slice(&kec(&[&bb]));
+        let third: [u8; 32] = if base.rct_type == RctType::Null { [0u8; 32] } else if t.rct_signatures.p.is_some() { kec(&[&all[pre.len() + bb.len()..]]) }
+            else { let mut a = [0u8; 32]; a.copy_from_slice(&unhex("70a4855d04d8fa7b3b2782ca53b600e5c003c7dcb27d7e923c23f7860146d2c5")); a };
+        parts.extend_from_slice(&third);
+    }
+    kec(&[&parts])
+}
+fn formulas_with(blk: &Block, miner_id: [u8; 32]) -> (String, bool) {
+    let mut leaves: Vec<[u8; 32]> = vec![miner_id];
+    leaves.extend(blk.tx_hashes.iter().map(|h| h.to_bytes()));
+    let root = tree_ref(&leaves);
+    let mut blob = header_ref(&blk.header);
+    blob.extend_from_slice(&root);
+    blob.extend_from_slice(&leb(blk.tx_hashes.len() as u64 + 1));
+    let mut id = hex(&kec(&[&leb(blob.len() as u64), &blob]));
+    let sub = id == ID_202612_FORMULA;
+    if sub { id = ID_202612_NETWORK.to_string(); }
+    (format!("ok {} {} {}", hex(&root), hex(&blob), id), sub)
+}
+fn methods(blk: &Block) -> String {
+    let b = blk.clone();
+    match guarded(move || format!("ok {} {} {}", hex(b.tx_root().as_bytes()), hex(&b.serialize_hashable()), hex(b.id().as_bytes()))) { Ok(s) => s, Err(m) => format!("PANIC {}", m) }
+}
+/// cheap distinct leaves (no hashing): 32 bytes from a SplitMix64 stream keyed per case, the index in the first 8 bytes
+fn cheap_leaves(rng: &mut Rng, n: usize) -> Vec<[u8; 32]> {
+    let mut r = Rng::new(rng.next());
+    (0..n).map(|i| { let mut a = [0u8; 32]; a[..8].copy_from_slice(&(i as u64).to_le_bytes()); for c in 1..4 { a[8 * c..8 * c + 8].copy_from_slice(&r.next().to_le_bytes()); } a }).collect()
+}
+/// `tree_hash` against the recursive definition, in Rust only
+fn tree_rust_only(o: &mut Out, leaves: &[[u8; 32]], fam: &str) {
+    let hs: Vec<Hash> = leaves.iter().map(|l| Hash::from_slice(l)).collect();
+    let got = guarded(move || tree_hash(hs[0], &hs[1..]));
+    let want = tree_ref(leaves);
+    let got_s = match &got { Ok(h) => hex(h.as_bytes()), Err(m) => format!("PANIC {}", m) };
+    o.direct(got_s == hex(&want), "tree_hash == recursive CryptoNote tree hash (Rust oracle)", format!("n={} first leaf {}", leaves.len(), hex(&leaves[0])), got_s, hex(&want));
+    o.stat(&format!("tree.{}", fam));
+}
+/// which quarter of `0..cnt` the number of kept leaves `2*cnt - n` falls into (n >= 3)
+fn keep_quartile(n: usize) -> usize { let mut cnt = 1usize; while cnt * 2 < n { cnt *= 2; } ((2 * cnt - n) * 4 / cnt).min(3) }
 
 fn leaves_from_seed(rng: &mut Rng, n: usize) -> Vec<[u8; 32]> {
     // one keyed stream per case: leaf i = keccak(key || i); cheap, and distinct leaves (so order mistakes show)
@@ -130,8 +225,23 @@ fn gen_block(rng: &mut Rng, n_tx: usize) -> Block {
     Block { header, miner_tx, tx_hashes }
 }
 
-fn block_case(o: &mut Out, blk: &Block, bytes: &[u8], fam: &str) {
+/// like `gen_block`, with a version-1 miner transaction (no RingCT part at all), as in the early chain (block 202612)
+fn gen_block_v1(rng: &mut Rng, n_tx: usize) -> Block {
+    let mut blk = gen_block(rng, n_tx);
+    blk.miner_tx.prefix.version = VarInt(1);
+    blk.miner_tx.signatures = vec![];
+    blk.miner_tx.rct_signatures = RctSig { sig: None, p: None };
+    blk
+}
+
+fn block_case(o: &mut Out, blk: &Block, bytes: &[u8], fam: &str) { block_case_opt(o, blk, bytes, fam, true) }
+/// `through_driver = false`: Rust oracle only (blocks too large for an operation line)
+fn block_case_opt(o: &mut Out, blk: &Block, bytes: &[u8], fam: &str, through_driver: bool) {
     let hdr = serialize(&blk.header);
+    // the header bytes that enter the blob are the by-the-book layout of the header's field values (a header codec change that is
+    // consistent between encoder and decoder would otherwise be invisible to this property: both sides would get the same bytes)
+    { let want_hdr = header_ref(&blk.header);
+      o.direct(hdr == want_hdr, "serialize(&block.header) == varint(major) ‖ varint(minor) ‖ varint(timestamp) ‖ prev_id ‖ nonce LE of the header's fields", format!("{:?}", blk.header), hex(&hdr), hex(&want_hdr)); }
     let miner = blk.miner_tx.hash();
     let txs: Vec<u8> = blk.tx_hashes.iter().flat_map(|h| h.as_bytes().iter().copied()).collect();
     // Rust-side oracle: root, blob, id from the independent formulas
@@ -148,7 +258,7 @@ fn block_case(o: &mut Out, blk: &Block, bytes: &[u8], fam: &str) {
     o.direct(got == want, "Block::{tx_root, serialize_hashable, id} == independent formulas (Rust oracle)", trunc(&hex(bytes), 400), trunc(&got, 400), trunc(&want, 400));
     o.stat(&format!("block.{}", fam));
     o.stat(&format!("block.ntx_{}", match blk.tx_hashes.len() { 0 => "0", 1 => "1", 2..=8 => "2-8", 9..=40 => "9-40", _ => ">40" }));
-    o.op(format!("c06_block {} {} {} {}", hex(bytes), hex(&hdr), hex(miner.as_bytes()), hex(&txs)), true);
+    if through_driver { o.op(format!("c06_block {} {} {} {}", hex(bytes), hex(&hdr), hex(miner.as_bytes()), hex(&txs)), true); } else { o.stat("block.rust_only"); }
 }
 
 /// hex string literals of at least 200 digits in the test module of src/blockdata/block.rs that deserialize as blocks
@@ -238,6 +348,203 @@ pub fn run(o: &mut Out, tier: &str, seed: u64) {
                 3 => { if let Some(h) = m.tx_hashes.last_mut() { *h = Hash::from_slice(&rng.arr32()); } } 4 => { m.tx_hashes.pop(); } 5 => { if m.tx_hashes.len() >= 2 { m.tx_hashes.swap(0, 1); } }
                 6 => { m.header.major_version.0 += 1; } _ => { m.tx_hashes = (0..m.tx_hashes.len()).map(|_| Hash::from_slice(&rng.arr32())).collect(); } }
             let mb = serialize(&m); block_case(o, &m, &mb, "repo_test_neighbour"); } }
+
+    // ===== families added after the audit of C06 =====
+    // (6) known answers. Monero's own tree-hash vectors: library == expected root, independent oracle == expected root (anchors
+    //     `tree_ref` and, through the operation line, the Lean `treeSpec` and the model to the reference implementation's test data)
+    let mut kat = 0;
+    for (want, flat) in TREE_KAT.iter() {
+        let b = unhex(flat);
+        let leaves: Vec<[u8; 32]> = b.chunks(32).map(|c| { let mut a = [0u8; 32]; a.copy_from_slice(c); a }).collect();
+        let got = o.op(format!("c06_tree {}", flat), leaves.len() >= 2);
+        o.direct(&got == want, "tree_hash == Monero's test vector (tests-tree.txt)", format!("n={} {}", leaves.len(), trunc(flat, 200)), got.clone(), want.to_string());
+        o.direct(hex(&tree_ref(&leaves)) == *want, "independent recursive oracle == Monero's test vector (tests-tree.txt)", format!("n={}", leaves.len()), hex(&tree_ref(&leaves)), want.to_string());
+        o.stat("tree.known_answer"); kat += 1;
+    }
+    o.direct(kat == 16, "all 16 embedded tree-hash vectors were run", "TREE_KAT".into(), kat.to_string(), "16".into());
+    // the block-hashing blob accepted by monerod for a main-chain block
+    { let b = unhex(KAT_BLOCK);
+      match deserialize::<Block>(&b) {
+          Ok(blk) => { let got = hex(&blk.serialize_hashable());
+              o.direct(got == KAT_BLOB, "serialize_hashable == block-hashing blob accepted by monerod (known answer)", trunc(KAT_BLOCK, 200), got, KAT_BLOB.into());
+              let (want, _) = formulas(&blk);
+              o.direct(want.split(' ').nth(2) == Some(KAT_BLOB), "independent formulas == block-hashing blob accepted by monerod (known answer)", trunc(KAT_BLOCK, 200), want.clone(), KAT_BLOB.into());
+              block_case(o, &blk, &b, "known_answer"); }
+          Err(e) => o.direct(false, "the known-answer block deserializes", trunc(KAT_BLOCK, 200), format!("{:?}", e), "Ok".into()),
+      } }
+    // (7) block 202612, EMBEDDED (the only input that reaches the substitution branch), and its neighbours. The run FAILS when the
+    //     branch was not reached by the independent formula (floor on `block.id_substituted`).
+    { let b = unhex(BLOCK_202612.trim());
+      let before = o.stats.get("block.id_substituted").copied().unwrap_or(0);
+      match deserialize::<Block>(&b) {
+          Ok(blk) => {
+              o.direct(blk.tx_hashes.len() == 513 && blk.miner_tx.prefix.version.0 == 1, "embedded block 202612 has 513 listed hashes and a version-1 miner transaction", "BLOCK_202612".into(), format!("{} hashes, v{}", blk.tx_hashes.len(), blk.miner_tx.prefix.version.0), "513 hashes, v1".into());
+              let got_id = hex(blk.id().as_bytes());
+              o.direct(got_id == ID_202612_NETWORK, "Block::id of block 202612 == the identifier under which the network knows it", "BLOCK_202612".into(), got_id, ID_202612_NETWORK.into());
+              let (want, sub) = formulas(&blk);
+              o.direct(sub, "the identifier FORMULA on block 202612 gives 426d16cf… (the substitution branch is reached)", "BLOCK_202612".into(), trunc(&want, 300), ID_202612_FORMULA.into());
+              block_case(o, &blk, &b, "embedded_202612");
+              // neighbours: every single-field change of block 202612 must follow the plain formula (exception keyed on anything
+              // but the computed hash — height, count, prefix of the hash — shows here)
+              for v in 0..12u32 { let mut m = blk.clone();
+                  match v { 0 => m.header.nonce = m.header.nonce.wrapping_add(1), 1 => m.header.nonce = m.header.nonce.wrapping_sub(1), 2 => m.header.timestamp.0 += 1, 3 => m.header.prev_id = Hash::from_slice(&rng.arr32()),
+                      4 => { if let Some(h) = m.tx_hashes.last_mut() { let mut x = h.to_bytes(); x[31] ^= 1; *h = Hash::from_slice(&x); } }
+                      5 => { let mut x = m.tx_hashes[0].to_bytes(); x[0] ^= 0x80; m.tx_hashes[0] = Hash::from_slice(&x); }
+                      6 => { m.tx_hashes.pop(); } 7 => { m.tx_hashes.push(Hash::from_slice(&rng.arr32())); } 8 => { m.tx_hashes.swap(0, 512); }
+                      9 => { m.header.minor_version.0 += 1; } 10 => { m.miner_tx.prefix.unlock_time.0 += 1; } _ => { m.tx_hashes.reverse(); } }
+                  let mb = serialize(&m);
+                  let (w, s2) = formulas(&m);
+                  o.direct(!s2 && !w.ends_with(ID_202612_NETWORK), "a neighbour of block 202612 does not get the substituted identifier (formula side)", format!("variant {}", v), trunc(&w, 200), "plain formula".into());
+                  block_case(o, &m, &mb, "embedded_202612_neighbour"); }
+          }
+          Err(e) => o.direct(false, "embedded block 202612 deserializes", "BLOCK_202612".into(), format!("{:?}", e), "Ok".into()),
+      }
+      let after = o.stats.get("block.id_substituted").copied().unwrap_or(0);
+      o.direct(after > before, "FLOOR: the block-202612 substitution was exercised at least once by the embedded block", "block.id_substituted".into(), (after - before).to_string(), ">= 1".into()); }
+    // (8) leaf counts STRICTLY BETWEEN the powers of two (a size-gated path wrong for a mid-range `keep` is not executed by 2^k±2):
+    //     random n in (2^k, 2^(k+1)), Rust oracle only, counted by the quarter of 0..cnt that `keep` falls into; a few through the driver
+    { let (nrand, kmax, nbig) = if thorough { (400usize, 16u32, 24usize) } else { (120, 15, 8) };
+      for t in 0..nrand + nbig {
+          let k = if t < nrand { 8 + (t as u32 % (kmax - 7)) } else { if thorough { 17 } else { 16 } };
+          let p = 1usize << k;
+          let n = match t % 5 { 0 => p + p / 2, 1 => p + 1 + rng.below(p as u64 / 8) as usize + 2, 2 => 2 * p - 3 - rng.below(p as u64 / 8) as usize, _ => p + 3 + rng.below(p as u64 - 5) as usize };
+          let leaves = cheap_leaves(&mut rng, n);
+          tree_rust_only(o, &leaves, "between.rust_only");
+          o.stat(&format!("tree.between.keep_quartile_{}", keep_quartile(n)));
+      }
+      let ndrv = if thorough { 24 } else { 6 };
+      for t in 0..ndrv {
+          let k = 9 + (t as u32 % if thorough { 6 } else { 4 });
+          let p = 1usize << k;
+          let n = if t % 3 == 0 { p + p / 2 + rng.below(8) as usize } else { p + 3 + rng.below(p as u64 - 5) as usize };
+          if n <= upto { continue; }
+          tree_case(o, &mut rng, n, "between");
+          o.stat(&format!("tree.between.keep_quartile_{}", keep_quartile(n)));
+      } }
+    // (9) blocks at the width boundaries of the count varint `1 + n` (2 → 3 bytes at 16 384; `as u16` would wrap at 65 536): Rust
+    //     oracle only (such a block is 0.5–2 MB). The expected count bytes are written out by hand.
+    { let table: [(usize, &[u8]); 7] = [(126, &[0x7f]), (127, &[0x80, 0x01]), (16382, &[0xff, 0x7f]), (16383, &[0x80, 0x80, 0x01]), (16384, &[0x81, 0x80, 0x01]), (65535, &[0x80, 0x80, 0x04]), (65536, &[0x81, 0x80, 0x04])];
+      for (n_tx, tail) in table.iter() {
+          let mut blk = if rng.chance(1, 2) { gen_block(&mut rng, 0) } else { gen_block_v1(&mut rng, 0) };
+          blk.tx_hashes = cheap_leaves(&mut rng, *n_tx).iter().map(|l| Hash::from_slice(l)).collect();
+          let bytes = serialize(&blk);
+          let blob = blk.serialize_hashable();
+          let hl = serialize(&blk.header).len();
+          o.direct(blob.len() == hl + 32 + tail.len() && blob[hl + 32..] == **tail, "the blob ends with varint(1 + number of listed hashes) (bytes written out by hand)", format!("n_tx={}", n_tx), hex(&blob[(hl + 32).min(blob.len())..]), hex(tail));
+          let back = deserialize::<Block>(&bytes).ok();
+          o.direct(back.as_ref() == Some(&blk), "generated block round-trips through the codec", format!("n_tx={}", n_tx), format!("{}", back.is_some()), "same block".into());
+          block_case_opt(o, &blk, &bytes, "count_varint_boundary", *n_tx <= 127);
+      } }
+    // (10) version-1 miner transactions (identifier = hash of the whole serialisation), counts around powers of two
+    for &n_tx in &[0usize, 1, 2, 3, 4, 7, 8, 9, 31, 32, 33] {
+        let blk = gen_block_v1(&mut rng, n_tx);
+        let bytes = serialize(&blk);
+        let back = deserialize::<Block>(&bytes).ok();
+        o.direct(back.as_ref() == Some(&blk), "generated block (v1 miner tx) round-trips through the codec", trunc(&hex(&bytes), 400), format!("{}", back.is_some()), "same block".into());
+        block_case(o, &blk, &bytes, "generated_v1");
+    }
+    // (11) call sequences on ONE `Block` value: `id()` first on a fresh value, the three methods in every order, public fields
+    //      changed between calls (a memo of the root / blob / id inside the value, or keyed on part of it, shows here)
+    for t in 0..if thorough { 120 } else { 40 } {
+        let n0 = rng.below(12) as usize;
+        let mut blk = if t % 4 == 3 { gen_block_v1(&mut rng, n0) } else { gen_block(&mut rng, n0) };
+        let want0 = formulas(&blk).0;
+        let w: Vec<&str> = want0.split(' ').collect();
+        let first = match t % 3 { 0 => hex(blk.id().as_bytes()), 1 => hex(&blk.serialize_hashable()), _ => hex(blk.tx_root().as_bytes()) };
+        let want_first = match t % 3 { 0 => w[3], 1 => w[2], _ => w[1] };
+        o.direct(first == want_first, "first method called on a fresh Block value (id / serialize_hashable / tx_root) == independent formula", format!("which={} {:?}", t % 3, blk.header), first.clone(), want_first.to_string());
+        // the other two afterwards, in the opposite order, then all of them again
+        let got_all = format!("ok {} {} {}", hex(blk.tx_root().as_bytes()), hex(&blk.serialize_hashable()), hex(blk.id().as_bytes()));
+        o.direct(got_all == want0, "methods called again after the first call == independent formulas", format!("which={}", t % 3), trunc(&got_all, 300), trunc(&want0, 300));
+        for step in 0..6u32 {
+            match (t + step) % 6 { 0 => blk.tx_hashes.push(Hash::from_slice(&rng.arr32())), 1 => { blk.tx_hashes.pop(); } 2 => blk.header.nonce = blk.header.nonce.wrapping_add(1 + rng.below(3) as u32),
+                3 => blk.miner_tx.prefix.unlock_time.0 = blk.miner_tx.prefix.unlock_time.0.wrapping_add(1), 4 => { if let Some(h) = blk.tx_hashes.first_mut() { *h = Hash::from_slice(&rng.arr32()); } }
+                _ => { blk.header.timestamp.0 = blk.header.timestamp.0.wrapping_add(1); let l = blk.tx_hashes.len(); if l >= 2 { blk.tx_hashes.swap(0, l - 1); } } }
+            let want = formulas(&blk).0;
+            let got = if step % 2 == 0 { let i = hex(blk.id().as_bytes()); let b = hex(&blk.serialize_hashable()); let r = hex(blk.tx_root().as_bytes()); format!("ok {} {} {}", r, b, i) } else { methods(&blk) };
+            o.direct(got == want, "after changing a public field of the same Block value the three methods follow the new value", format!("t={} step={}", t, step), trunc(&got, 300), trunc(&want, 300));
+            o.stat("block.sequence_step");
+        }
+    }
+
+    // (13) blocks whose MINER transaction is not a plain coinbase: version 2 with a single Gen input and a NON-Null RingCT part (each of
+    //      the six types, with outputs, with and without range proofs), version 2 / version 1 with key inputs (rings, signatures), mixed
+    //      inputs, version 2 with a Gen input and NO RingCT base (a value that only exists in memory). A root computed by a "coinbase fast
+    //      path" (H(prefix) ‖ H(0x00) ‖ 0^32 for every single-Gen-input v2 transaction) instead of `miner_tx.hash()` is wrong exactly here.
+    //      Three-way: library vs the model computed from the BLOCK BYTES (codec model, model of Transaction::hash) vs the formulas with a
+    //      transaction identifier computed WITHOUT `Transaction::hash` (`tx_id_ref`).
+    { use crate::gen::{tx_of, Shape, RCT_TYPES};
+      let mut shapes: Vec<(Shape, &str)> = vec![];
+      for &rct in RCT_TYPES[1..].iter() { for nout in [1usize, 2, 3] { for nbp in [0usize, 1] {
+          shapes.push((Shape { vary_rings: false, version: 2, nin: 1, ring: 1, nout, coinbase_first: true, all_coinbase: true, rct, nbp, extra_len: 33 + nout }, "gen_input_nonnull_rct")); } } }
+      for &rct in RCT_TYPES.iter() { for nin in [1usize, 2] {
+          shapes.push((Shape { vary_rings: nin == 2, version: 2, nin, ring: 2, nout: 2, coinbase_first: false, all_coinbase: false, rct, nbp: 1, extra_len: 34 }, "key_input_v2"));
+          shapes.push((Shape { vary_rings: false, version: 2, nin: nin + 1, ring: 1, nout: 1, coinbase_first: true, all_coinbase: false, rct, nbp: 1, extra_len: 10 }, "gen_and_key_inputs_v2")); } }
+      for nin in [1usize, 2, 3] {
+          shapes.push((Shape { vary_rings: true, version: 1, nin, ring: 3, nout: 2, coinbase_first: false, all_coinbase: false, rct: RctType::Null, nbp: 0, extra_len: 20 }, "key_input_v1"));
+          shapes.push((Shape { vary_rings: false, version: 1, nin, ring: 1, nout: 1, coinbase_first: true, all_coinbase: nin == 1, rct: RctType::Null, nbp: 0, extra_len: 44 }, "gen_input_v1")); }
+      shapes.push((Shape { vary_rings: false, version: 2, nin: 0, ring: 1, nout: 1, coinbase_first: false, all_coinbase: false, rct: RctType::Null, nbp: 0, extra_len: 5 }, "no_inputs_v2"));
+      shapes.push((Shape { vary_rings: false, version: 2, nin: 1, ring: 1, nout: 2, coinbase_first: true, all_coinbase: true, rct: RctType::Null, nbp: 0, extra_len: 40 }, "gen_input_null_rct"));
+      let reps = if thorough { 4 } else { 1 };
+      for (sh, fam) in shapes.iter() { for rep in 0..reps {
+          let n_tx = match (rep + sh.nout + sh.nin) % 4 { 0 => 0, 1 => 1, 2 => 2 + rng.below(3) as usize, _ => 7 + rng.below(10) as usize };
+          let mut blk = gen_block(&mut rng, n_tx);
+          blk.miner_tx = tx_of(&mut rng, sh);
+          let bytes = serialize(&blk);
+          let back = deserialize::<Block>(&bytes).ok();
+          o.direct(back.as_ref() == Some(&blk), "generated block (non-coinbase-shaped miner tx) round-trips through the codec", format!("{} {:?}", fam, sh), format!("{}", back.is_some()), "same block".into());
+          let mid = tx_id_ref(&blk.miner_tx);
+          o.direct(blk.miner_tx.hash().to_bytes() == mid, "miner_tx.hash() == identifier computed without Transaction::hash", format!("{} {:?}", fam, sh), hex(blk.miner_tx.hash().as_bytes()), hex(&mid));
+          let (want, _) = formulas_with(&blk, mid);
+          let got = methods(&blk);
+          o.direct(got == want, "Block::{tx_root, serialize_hashable, id} == formulas over the independently computed miner-tx identifier", format!("{} {:?} n_tx={}", fam, sh, n_tx), trunc(&got, 300), trunc(&want, 300));
+          block_case(o, &blk, &bytes, &format!("minertx.{}", fam));
+      } }
+      // version 2, one Gen input, NO RingCT base: identifier = H(H(prefix)); exists as a value only (its bytes do not parse back)
+      for n_tx in [0usize, 1, 2, 5] {
+          let mut blk = gen_block(&mut rng, n_tx);
+          blk.miner_tx.rct_signatures = RctSig { sig: None, p: None };
+          let mid = tx_id_ref(&blk.miner_tx);
+          let pre_only = kec(&[&kec(&[&serialize(&blk.miner_tx.prefix)])]);
+          o.direct(mid == pre_only && blk.miner_tx.hash().to_bytes() == mid, "v2 miner tx without RingCT base: hash() == H(H(prefix))", format!("n_tx={}", n_tx), hex(blk.miner_tx.hash().as_bytes()), hex(&pre_only));
+          let (want, _) = formulas_with(&blk, mid);
+          let got = methods(&blk);
+          o.direct(got == want, "Block::{tx_root, serialize_hashable, id} on a v2 Gen-input miner tx WITHOUT RingCT base == formulas (value level)", format!("n_tx={} {:?}", n_tx, blk.header), trunc(&got, 300), trunc(&want, 300));
+          o.stat("block.minertx.gen_input_no_rct_base.value_only");
+      } }
+    // (14) header fields major / minor / timestamp >= 2^63 (10-byte varints; the header is then up to 66 bytes and the blob up to 101, which
+    //      moves the blob-length prefix hashed by `id()`), all 8 wide/narrow combinations, boundary values
+    { let wide: [u64; 6] = [1 << 63, (1 << 63) + 1, u64::MAX, u64::MAX - 1, (1 << 63) | 0x7f, 0xffff_ffff_0000_0000];
+      for t in 0..if thorough { 96u32 } else { 32 } {
+          let n_tx = match t % 4 { 0 => 0, 1 => 1, 2 => 3, _ => rng.below(20) as usize };
+          let mut blk = if t % 5 == 4 { gen_block_v1(&mut rng, n_tx) } else { gen_block(&mut rng, n_tx) };
+          let mask = if t < 8 { 7 - t } else { 1 + rng.below(7) as u32 };
+          if mask & 1 != 0 { blk.header.major_version = VarInt(if rng.chance(1, 3) { (1 << 63) | (rng.next() >> 1) } else { *rng.pick(&wide) }); }
+          if mask & 2 != 0 { blk.header.minor_version = VarInt(if rng.chance(1, 3) { (1 << 63) | (rng.next() >> 1) } else { *rng.pick(&wide) }); }
+          if mask & 4 != 0 { blk.header.timestamp = VarInt(if rng.chance(1, 3) { (1 << 63) | (rng.next() >> 1) } else { *rng.pick(&wide) }); }
+          let bytes = serialize(&blk);
+          let hl = serialize(&blk.header).len();
+          let wides = (mask & 1) + ((mask >> 1) & 1) + ((mask >> 2) & 1);
+          o.direct(hl >= 36 + 10 * wides as usize + (3 - wides as usize), "a header with k fields >= 2^63 has at least 36 + 10k + (3-k) bytes", format!("{:?}", blk.header), hl.to_string(), format!(">= {}", 36 + 10 * wides + (3 - wides)));
+          let blob = blk.serialize_hashable();
+          let idh = hex(blk.id().as_bytes());
+          let want_id = hex(&kec(&[&leb(blob.len() as u64), &blob]));
+          o.direct(idh == want_id, "id == H(varint(|blob|) ‖ blob) over the library's own blob (wide header)", format!("{:?} |blob|={}", blk.header, blob.len()), idh, want_id);
+          block_case(o, &blk, &bytes, "header_wide");
+          o.stat(&format!("block.header_wide.fields_{}", wides));
+      } }
+    // (12) local purity re-check of LONG lines (the shared re-check skips lines of 6000+ characters, i.e. every tree with n >= 94 and
+    //      every block with more than ~80 hashes): a sample is executed again, in reverse order, then twice in a row
+    { let long: Vec<usize> = (0..o.ops.len()).filter(|i| o.ops[*i].len() >= 6000 && o.ops[*i].len() < 400_000 && (o.ops[*i].starts_with("c06_tree ") || o.ops[*i].starts_with("c06_block "))).collect();
+      let mut pick: Vec<usize> = vec![];
+      for _ in 0..if thorough { 120 } else { 40 } { if !long.is_empty() { pick.push(long[rng.below(long.len() as u64) as usize]); } }
+      pick.sort(); pick.dedup(); pick.reverse();
+      for rep in 0..2 { for &i in &pick { for _ in 0..(1 + rep) {
+          let again = crate::exec_line(&o.ops[i]);
+          let (l, r) = (o.ops[i].clone(), o.impls[i].clone());
+          o.direct(again == r, "purity (long lines): the same operation line gives the same result when executed again", trunc(&l, 300), trunc(&again, 300), trunc(&r, 300));
+          o.stat("purity.long_line");
+      } } } }
     // malformed block: truncated
     { let blk = gen_block(&mut rng, 3); let b = serialize(&blk); let cut = &b[..b.len() - 7];
       o.stat("block.malformed"); o.op(format!("c06_block {} - - -", hex(cut)), false); }
